@@ -359,6 +359,11 @@ fn gen_sworld(base: u64, run: u64) -> SWorld {
     if let Some(t) = simcore::gen::semantic_token(&mut wl) {
         toks.push(t);
     }
+    if pattern.contains("Emoji") {
+        for _ in 0..2 {
+            toks.push(simcore::gen::SEMANTIC_TOKENS[9 + wl.usize_below(simcore::gen::SEMANTIC_TOKENS.len() - 9)].to_string());
+        }
+    }
     let hay: String = if n >= 2 && !toks.is_empty() && wl.chance(2, 5) {
         simcore::gen::gen_hay_tokens(&mut wl, &toks, &alpha, n)
     } else {
